@@ -23,6 +23,9 @@ struct Case
     std::string msg; // failure detail
     std::map<std::string, long> counters; // e.g. excluded-by-construction counts, per-case numbers
     size_t weight = 0; // "size" used to keep the largest sample
+    // Further failures of the same case (enumerating harnesses report every failing class, not only the first):
+    // each is matched against the known findings by the driver; the first unlisted one becomes the case's failure.
+    std::vector<std::pair<std::string, std::string>> alsoFailed;
 
     void fail(const std::string &signature, const std::string &message)
     {
